@@ -299,6 +299,7 @@ pub struct Stats {
     pub order_checks_tiny: u64,
     pub big_roundtrips: u64,
     pub zst_debug_checks: u64,
+    pub default_checks: u64,
     pub dup_pos: u64,
 }
 
